@@ -30,7 +30,8 @@ Lemma k_open_dst st path excl st2 f :
      (excl = false /\ k = Some SFile /\ (exists c, get (root st) (d ++ [nm]) = Some (NFile c)) /\ st2 = st)).
 Proof.
   unfold k_open. cbn [andb negb orb].
-  destruct (resolve st (negb excl) path) as [e|d nm [[| |t]|]|d dot] eqn:R; try discriminate.
+  destruct (resolve st (negb excl) path) as [e|d nm [[| |t]|]|d dot] eqn:R; try discriminate;
+    try (destruct excl; discriminate).
   - destruct excl; [discriminate|]. intro H. inversion H; subst; clear H.
     pose proof R as R0. apply resolve_at_some in R. apply sget_some_get in R as (n & G & S). destruct n; try discriminate.
     destruct (get_below_dir _ d nm [] _ G) as [es Gd].
@@ -40,6 +41,33 @@ Proof.
     intro H. inversion H; subst; clear H. apply sget_dir_get in S as [es Gd].
     pose proof R as R0. apply resolve_at_none in R.
     exists d, nm, es, None. cbn [fd_rd fd_wr fd_pos fd_dir fd_path]. repeat split; eauto.
+Qed.
+
+(* the path walk itself never reports EEXIST *)
+Lemma walk_err_not_eexist r fl e : forall L cur cs, walk L r fl cur cs = WErr e -> is_eexist e = false.
+Proof.
+  apply (walk_ind r fl (fun L cur cs => walk L r fl cur cs = WErr e -> is_eexist e = false)).
+  - intros L cur. rewrite walk_nil. discriminate.
+  - intros L cur c rest IH. rewrite walk_cons. unfold wstep in *.
+    destruct (str_eqb c DOT1). { destruct rest; [discriminate|]. apply IH. reflexivity. }
+    destruct (str_eqb c DOTDOT). { destruct rest; [discriminate|]. apply IH. reflexivity. }
+    destruct (sget r (cur ++ [c])) as [[| |t]|].
+    + destruct rest; intro H; inversion H; reflexivity.
+    + destruct rest; [discriminate|]. apply IH. reflexivity.
+    + destruct rest as [|x y]; [destruct fl; [|discriminate]|];
+        (destruct L; [intro H; inversion H; reflexivity|]; destruct t; [intro H; inversion H; reflexivity|]; apply IH; reflexivity).
+    + destruct rest; intro H; inversion H; reflexivity.
+Qed.
+
+(* open(O_CREAT | O_EXCL) that fails with EEXIST: the name is taken (lstat succeeds) *)
+Lemma k_open_excl_eexist st path rd wr trunc st' e :
+  k_open st path rd wr true true trunc = (st', inr e) -> is_eexist e = true -> k_lstat st path <> None.
+Proof.
+  unfold k_open, k_lstat. cbn [andb negb].
+  destruct (resolve st false path) as [e0|d nm [[| |t]|]|d dot] eqn:R; try discriminate.
+  - intros H X. inversion H; subst. unfold resolve in R. destruct path; [inversion R; subst; discriminate|].
+    apply walk_err_not_eexist in R. congruence.
+  - destruct (parent_is_dir st d); intros H X; inversion H; subst; discriminate.
 Qed.
 
 Lemma overwrite_empty d : overwrite [] 0 d = d.
@@ -70,11 +98,245 @@ Proof. unfold cpath_eqb. rewrite is_prefix_refl. reflexivity. Qed.
 Lemma cpath_eqb_false a b : a <> b -> cpath_eqb a b = false.
 Proof. intro N. destruct (cpath_eqb a b) eqn:E; auto. apply cpath_eqb_true in E. contradiction. Qed.
 
-(* File::copy, exactly: either it says false and nothing at all has changed, or it says true, the
-   source text leads (through links) to a regular file with bytes c, the destination text leads
-   to a different place dd/nd whose parent exists and where there was nothing or (without
-   failIfExists) a regular file, and the tree afterwards is the tree before with a regular file
-   holding exactly c at that place *)
+Ltac splits := repeat match goal with |- _ /\ _ => split end.
+
+(* ---- the transfer loop ------------------------------------------------------------------------------ *)
+
+Lemma firstn_app_skipn {A} k m (c : list A) : firstn k c ++ firstn m (skipn k c) = firstn (k + m) c.
+Proof.
+  revert c; induction k as [|k IH]; intro c; [reflexivity|].
+  destruct c as [|a c]; simpl; [rewrite firstn_nil; reflexivity|]. rewrite IH. reflexivity.
+Qed.
+
+Lemma firstn_len_self {A} lim (l : list A) : firstn (length (firstn lim l)) l = firstn lim l.
+Proof.
+  rewrite firstn_length. destruct (Nat.le_ge_cases lim (length l)) as [H|H].
+  - rewrite Nat.min_l by auto. reflexivity.
+  - rewrite Nat.min_r by auto. rewrite !firstn_all2 by auto. reflexivity.
+Qed.
+
+Lemma overwrite_at_end c k d : (k <= length c)%nat -> overwrite (firstn k c) k d = firstn k c ++ d.
+Proof.
+  intro H. unfold overwrite. rewrite firstn_length, Nat.min_l by auto.
+  rewrite (firstn_all2 (n := k) (firstn k c)) by (rewrite firstn_length; lia).
+  rewrite Nat.sub_diag. simpl. rewrite skipn_all2 by (rewrite firstn_length; lia). rewrite app_nil_r. reflexivity.
+Qed.
+
+Section Transfer.
+  (* st0: the state before the destination was opened; the source is the regular file at ps with
+     bytes c, the destination is the place pd = d/nm, not related to ps *)
+  Variables (st0 : state) (ps : cpath) (c : list Z) (d : cpath) (nm : str) (es : list (str * node)).
+  Hypothesis Gs : get (root st0) ps = Some (NFile c).
+  Hypothesis Gd : get (root st0) d = Some (NDir es).
+  Hypothesis U1 : is_prefix (d ++ [nm]) ps = false.
+  Hypothesis U2 : is_prefix ps (d ++ [nm]) = false.
+
+  (* k bytes have been transferred *)
+  Definition at_k (k : nat) : state := set_root st0 (upd (root st0) (d ++ [nm]) (Some (NFile (firstn k c)))).
+
+  Definition xinv (k : nat) (s : state) (dst src : fd) : Prop :=
+    (k <= length c)%nat /\ s = at_k k /\
+    fd_path dst = d ++ [nm] /\ fd_pos dst = k /\ fd_dir dst = false /\ fd_wr dst = true /\
+    fd_path src = ps /\ fd_pos src = k /\ fd_dir src = false /\ fd_rd src = true.
+
+  Lemma get_dst k : get (root (at_k k)) (d ++ [nm]) = Some (NFile (firstn k c)).
+  Proof.
+    unfold at_k. cbn [root set_root]. rewrite <- (app_nil_r (d ++ [nm])) at 2.
+    erewrite get_upd_here by eauto. reflexivity.
+  Qed.
+
+  Lemma get_src k : get (root (at_k k)) ps = Some (NFile c).
+  Proof. unfold at_k. cbn [root set_root]. rewrite get_upd_unrelated by auto. exact Gs. Qed.
+
+  Lemma sendfile_step k s dst src count x :
+    xinv k s dst src ->
+    match k_sendfile s dst src count x with
+    | (s1, dst1, src1, inl n) => xinv (k + n) s1 dst1 src1 /\ (n <= count)%nat
+    | (s1, _, _, inr _) => s1 = s
+    end.
+  Proof.
+    intros (Hk & -> & Pd & Qd & Dd & Wd & Psrc & Qs & Ds & Rs).
+    unfold k_sendfile. rewrite Ds, Dd, Rs, Wd. cbn [orb negb].
+    destruct x as [[|n]|]; [reflexivity| |].
+    all: rewrite Pd, get_dst; unfold content_at; rewrite Psrc, get_src, Qd, Qs.
+    all: match goal with |- context [firstn ?lim (skipn ?kk ?cc)] => set (dd := firstn lim (skipn kk cc)); assert (Ld : (length dd <= lim)%nat) by (unfold dd; rewrite firstn_length; lia) end.
+    all: assert (Lk : (k + length dd <= length c)%nat) by (unfold dd; rewrite firstn_length, skipn_length; lia).
+    all: assert (E : firstn k c ++ dd = firstn (k + length dd) c)
+           by (rewrite <- firstn_app_skipn; f_equal; unfold dd; symmetry; apply firstn_len_self).
+    all: rewrite overwrite_at_end by auto; rewrite E.
+    all: split; [|lia].
+    all: unfold xinv, fd_advance; cbn [fd_path fd_pos fd_rd fd_wr fd_dir]; repeat split; auto; try lia.
+    all: unfold at_k; cbn [root set_root]; rewrite upd_upd_same; reflexivity.
+  Qed.
+
+  (* whatever the outcomes: the loop leaves a prefix of the source's bytes in the destination, and
+     all of them when it says true *)
+  Lemma xfer_loop_spec fuel : forall orc k s dst src s' b,
+    xinv k s dst src ->
+    xfer_loop fuel orc s dst src (length c - k) = (s', b) ->
+    exists k', (k' <= length c)%nat /\ s' = at_k k' /\ (b = true -> k' = length c).
+  Proof.
+    induction fuel as [|f IH]; intros orc k s dst src s' b I H.
+    - destruct I as (Hk & -> & _). simpl in H. destruct (length c - k)%nat eqn:L; inversion H; subst.
+      + exists k. repeat split; auto. intros _. lia.
+      + exists k. repeat split; auto. discriminate.
+    - cbn [xfer_loop] in H. destruct (length c - k)%nat as [|l] eqn:L.
+      + destruct I as (Hk & -> & _). inversion H; subst. exists k. repeat split; auto. intros _. lia.
+      + pose proof (sendfile_step k s dst src (S l) (hd_error orc) I) as St.
+        destruct (k_sendfile s dst src (S l) (hd_error orc)) as [[[s1 dst1] src1] [n|e]].
+        * destruct St as [I1 Hn]. destruct (Nat.eqb n 0) eqn:N0.
+          -- inversion H; subst. destruct I1 as (Hk1 & -> & _). exists (k + n)%nat. repeat split; auto. discriminate.
+          -- replace (S l - n)%nat with (length c - (k + n))%nat in H by lia. eapply IH; eauto.
+        * subst s1. inversion H; subst. destruct I as (Hk & -> & _). exists k. repeat split; auto. discriminate.
+  Qed.
+
+  (* when every call moves all it was asked for, one round does it *)
+  Lemma xfer_loop_complete f k s dst src :
+    xinv k s dst src -> xfer_loop (S f) [] s dst src (length c - k) = (at_k (length c), true).
+  Proof.
+    intro I. cbn [xfer_loop hd_error tl]. destruct (length c - k)%nat as [|l] eqn:L.
+    - destruct I as (Hk & -> & _). f_equal. f_equal. lia.
+    - pose proof I as (Hk & -> & Pd & Qd & Dd & Wd & Psrc & Qs & Ds & Rs).
+      unfold k_sendfile. rewrite Ds, Dd, Rs, Wd. cbn [orb negb].
+      rewrite Pd, get_dst. unfold content_at. rewrite Psrc, get_src, Qd, Qs.
+      assert (F : firstn (S l) (skipn k c) = skipn k c) by (apply firstn_all2; rewrite skipn_length; lia).
+      rewrite F, skipn_length, L. cbn [Nat.eqb]. rewrite Nat.sub_diag.
+      destruct f; cbn [xfer_loop]; f_equal.
+      all: unfold at_k; cbn [root set_root]; rewrite upd_upd_same, overwrite_at_end by auto.
+      all: rewrite firstn_skipn, firstn_all; reflexivity.
+  Qed.
+
+  Lemma at_k_all : at_k (length c) = set_root st0 (upd (root st0) (d ++ [nm]) (Some (NFile c))).
+  Proof. unfold at_k. rewrite firstn_all. reflexivity. Qed.
+End Transfer.
+
+(* what a failed copy may leave: nothing changed; or the destination text led to an existing
+   regular file, or - through a symbolic link - to a name that did not exist, and that file now
+   holds some bytes c1 (only when a transfer call failed or moved nothing) *)
+Definition copy_failure_outcome (orc : list xfer) (st : state) (dst : str) (fie : bool) (st' : state) : Prop :=
+  st' = st \/
+  exists dd nd kd es c1,
+    orc <> [] /\ fie = false /\ resolve st true dst = WAt dd nd kd /\ get (root st) dd = Some (NDir es) /\
+    (kd = Some SFile \/ (kd = None /\ k_lstat st dst <> None)) /\
+    st' = set_root st (upd (root st) (dd ++ [nd]) (Some (NFile c1))).
+
+(* File::copy, exactly, whatever the transfer calls do: either it says true, the source text leads
+   (through links) to a regular file with bytes c, the destination text leads to a different place
+   dd/nd whose parent exists and where there was nothing or (without failIfExists) a regular file,
+   and the tree afterwards is the tree before with a regular file holding exactly c at that place;
+   or it says false and the state is as described by copy_failure_outcome *)
+Lemma copy_exact_o orc st src dst fie st' b :
+  f_copy_o orc st src dst fie = (st', b) ->
+  (b = false /\ copy_failure_outcome orc st dst fie st') \/
+  (b = true /\
+   exists ds ns c dd nd kd es,
+     resolve st true src = WAt ds ns (Some SFile) /\ get (root st) (ds ++ [ns]) = Some (NFile c) /\
+     resolve st (negb fie) dst = WAt dd nd kd /\ (kd = None \/ (fie = false /\ kd = Some SFile)) /\
+     get (root st) dd = Some (NDir es) /\ ds ++ [ns] <> dd ++ [nd] /\
+     st' = set_root st (upd (root st) (dd ++ [nd]) (Some (NFile c)))).
+Proof.
+  intro Hc. unfold f_copy_o in Hc.
+  destruct (k_open st src true false false false false) as [st1 [fs|e]] eqn:O1.
+  2:{ left. inversion Hc; subst. split; auto. left. eapply k_open_err_same; eauto. }
+  destruct (k_open_src _ _ _ _ O1) as (-> & Rd & Wr & P0 & Gf).
+  destruct (fd_dir fs) eqn:D. { left. inversion Hc; subst. split; auto. left; auto. }
+  destruct (Gf eq_refl) as (ds & ns & c & Rs & Ps & Gs).
+  unfold k_lseek, content_at in Hc. rewrite Gs in Hc. rewrite !Z.add_0_r in Hc.
+  destruct (Z.of_nat (length c) <? 0) eqn:C1; [apply Z.ltb_lt in C1; lia|].
+  rewrite C1 in Hc.
+  cbn [Z.of_nat Z.add Z.ltb Z.compare Z.to_nat fd_path fd_pos fd_rd fd_wr fd_dir] in Hc.
+  rewrite Nat2Z.id in Hc.
+  set (fs2 := {| fd_path := fd_path fs; fd_pos := 0; fd_rd := fd_rd fs; fd_wr := fd_wr fs; fd_dir := fd_dir fs |}) in *.
+  (* the two ways the destination gets opened *)
+  assert (OPEN : forall excl st2 fd2 created,
+             k_open st dst false true true excl false = (st2, inl fd2) ->
+             (created = true -> excl = true) -> (excl = true -> created = true) ->
+             (excl = false -> fie = false /\ k_lstat st dst <> None) ->
+             (let '(st3, ok) := if same_file fs2 fd2 then (st2, false)
+                                else xfer_loop (S (length c)) orc (k_ftruncate0 st2 fd2) fd2 fs2 (length c) in
+              if ok then (st3, true) else if created then (fst (k_unlink st3 dst), false) else (st3, false)) = (st', b) ->
+             (b = false /\ copy_failure_outcome orc st dst fie st') \/
+             (b = true /\
+              exists dd nd kd es,
+                resolve st (negb excl) dst = WAt dd nd kd /\ (kd = None \/ (excl = false /\ kd = Some SFile)) /\
+                get (root st) dd = Some (NDir es) /\ ds ++ [ns] <> dd ++ [nd] /\
+                st' = set_root st (upd (root st) (dd ++ [nd]) (Some (NFile c))))).
+  { intros excl st2 fd2 created O2 CE EC EF H.
+    destruct (k_open_dst _ _ _ _ _ O2) as (d & nm & es & kd & Rdst & Pd & Dd & Wd & Rdd & Qd & Gd & Cd).
+    unfold same_file in H. replace (fd_path fs2) with (fd_path fs) in H by reflexivity. rewrite Pd in H.
+    destruct (cpath_eq_dec (fd_path fs) (d ++ [nm])) as [E|N].
+    - (* the destination is the source itself: refused; it was not created, so nothing changed *)
+      rewrite E, cpath_eqb_refl in H. left.
+      destruct Cd as [(_ & Gn & _)|(X0 & _ & _ & X)]; [rewrite E in Gs; congruence|].
+      subst st2. destruct created; [specialize (CE eq_refl); congruence|].
+      inversion H; subst. split; auto. left; auto.
+    - rewrite (cpath_eqb_false _ _ N) in H.
+      assert (Gp : get (root st) (d ++ [nm]) = None \/ exists c', get (root st) (d ++ [nm]) = Some (NFile c')).
+      { destruct Cd as [(_ & Gn & _)|(_ & _ & X & _)]; auto. }
+      destruct (file_unrelated _ _ _ _ _ _ Gs Gd Gp N) as [U1 U2].
+      assert (T : k_ftruncate0 st2 fd2 = at_k st c d nm 0).
+      { unfold k_ftruncate0, at_k. rewrite Pd. cbn [firstn]. destruct Cd as [(_ & Gn & ->)|(_ & _ & [c' X] & ->)].
+        - cbn [root set_root].
+          assert (Gnew : get (upd (root st) (d ++ [nm]) (Some (NFile []))) (d ++ [nm]) = Some (NFile [])).
+          { rewrite <- (app_nil_r (d ++ [nm])) at 2. erewrite get_upd_here by eauto. reflexivity. }
+          rewrite Gnew. rewrite set_root_twice, upd_upd_same. reflexivity.
+        - rewrite X. reflexivity. }
+      rewrite T in H.
+      assert (I0 : xinv st (fd_path fs) c d nm 0 (at_k st c d nm 0) fd2 fs2).
+      { unfold xinv. cbn [fd_path fd_pos fd_rd fd_wr fd_dir fs2]. repeat split; auto; lia. }
+      destruct (xfer_loop (S (length c)) orc (at_k st c d nm 0) fd2 fs2 (length c)) as [st3 ok] eqn:X.
+      replace (length c) with (length c - 0)%nat in X at 2 by lia.
+      destruct (xfer_loop_spec st (fd_path fs) c d nm es Gs Gd U1 U2 _ _ _ _ _ _ _ _ I0 X) as (k' & Hk' & -> & Hb).
+      destruct ok.
+      + (* everything arrived *)
+        inversion H; subst. right. split; auto. rewrite (Hb eq_refl), at_k_all. rewrite Ps in N.
+        exists d, nm, kd, es. repeat split; auto.
+        destruct Cd as [(K & _)|(F & K & _)]; auto.
+      + left. destruct created.
+        * (* a destination this call created is removed again: nothing has changed *)
+          specialize (CE eq_refl). subst excl.
+          destruct Cd as [(K & Gn & _)|(X0 & _)]; [|discriminate]. subst kd.
+          inversion H; subst. split; auto. left.
+          unfold k_unlink.
+          assert (R1 : resolve (at_k st c d nm k') false dst = WAt d nm (Some SFile)).
+          { unfold resolve in *. destruct dst as [|z dst]; [discriminate|]. unfold at_k. cbn [root cwd set_root].
+            cbn [negb] in Rdst.
+            apply (walk_fresh (root st) d nm (NFile (firstn k' c)) false Gn (ex_intro _ es Gd) (leaf_file _) (or_introl eq_refl)); auto. }
+          rewrite R1. unfold at_k. cbn [fst root set_root]. rewrite upd_upd_same.
+          rewrite upd_none_absent by auto. unfold set_root. cbn [cwd handles]. destruct st; reflexivity.
+        * (* an existing destination (or the target of a dangling link) keeps what has arrived *)
+          inversion H; subst. split; auto. right.
+          assert (excl = false) by (destruct excl; auto; specialize (EC eq_refl); discriminate). subst excl.
+          cbn [negb] in Rdst.
+          exists d, nm, kd, es, (firstn k' c). repeat split; auto.
+          { intros ->. rewrite (xfer_loop_complete st (fd_path fs) c d nm es Gs Gd U1 U2 _ _ _ _ _ I0) in X. discriminate. }
+          { exact (proj1 (EF eq_refl)). }
+          destruct Cd as [(K & Gn & _)|(_ & K & _)]; [|left; exact K]. right. split; auto.
+          exact (proj2 (EF eq_refl)). }
+  destruct (k_open st dst false true true true false) as [s [f|e]] eqn:OX.
+  - (* created by this call *)
+    destruct (OPEN true s f true OX) as [L|(B & dd & nd & kd & es & R & K & G & N & E)]; auto; try discriminate.
+    right. split; [exact B|]. exists ds, ns, c, dd, nd, kd, es. rewrite Ps in Gs.
+    refine (conj Rs (conj Gs (conj _ (conj _ (conj G (conj N E)))))).
+    + cbn [negb] in R. destruct K as [->|[X _]]; [|discriminate].
+      destruct fie; [exact R|]. cbn [negb]. unfold resolve in *. destruct dst; [discriminate|].
+      rewrite walk_follow_same; [exact R|]. rewrite R. exact I.
+    + destruct K as [K|[X _]]; [auto|discriminate].
+  - pose proof (k_open_err_same _ _ _ _ _ _ _ _ _ OX). subst s.
+    destruct (is_eexist e && negb fie) eqn:EE.
+    + apply andb_true_iff in EE as [EE F]. apply negb_true_iff in F. subst fie.
+      assert (LS : k_lstat st dst <> None) by (eapply k_open_excl_eexist; eauto).
+      destruct (k_open st dst false true true false false) as [s' [f|e']] eqn:OY.
+      * destruct (OPEN false s' f false OY) as [L|(B & dd & nd & kd & es & R & K & G & N & E)]; auto; try discriminate.
+        right. split; [exact B|]. exists ds, ns, c, dd, nd, kd, es. rewrite Ps in Gs.
+        refine (conj Rs (conj Gs (conj R (conj _ (conj G (conj N E)))))).
+        destruct K as [K|[_ K]]; auto.
+      * pose proof (k_open_err_same _ _ _ _ _ _ _ _ _ OY). subst s'.
+        left. inversion Hc; subst. split; auto. left; auto.
+    + left. inversion Hc; subst. split; auto. left; auto.
+Qed.
+
+(* when every transfer call moves all it was asked for, a copy that says false has changed nothing *)
 Lemma copy_exact st src dst fie st' b :
   f_copy st src dst fie = (st', b) ->
   (b = false /\ st' = st) \/
@@ -85,66 +347,30 @@ Lemma copy_exact st src dst fie st' b :
      get (root st) dd = Some (NDir es) /\ ds ++ [ns] <> dd ++ [nd] /\
      st' = set_root st (upd (root st) (dd ++ [nd]) (Some (NFile c)))).
 Proof.
-  intro Hc. unfold f_copy in Hc.
-  destruct (k_open st src true false false false false) as [st1 [fs|e]] eqn:O1.
-  2:{ left. inversion Hc; subst. split; auto. eapply k_open_err_same; eauto. }
-  destruct (k_open_src _ _ _ _ O1) as (-> & Rd & Wr & P0 & Gf).
-  destruct (fd_dir fs) eqn:D. { left. inversion Hc; auto. }
-  destruct (Gf eq_refl) as (ds & ns & c & Rs & Ps & Gs).
-  unfold k_lseek, content_at in Hc. rewrite Gs in Hc. rewrite !Z.add_0_r in Hc.
-  destruct (Z.of_nat (length c) <? 0) eqn:C1; [apply Z.ltb_lt in C1; lia|].
-  rewrite C1 in Hc.
-  cbn [Z.of_nat Z.add Z.ltb Z.compare Z.to_nat fd_path fd_pos fd_rd fd_wr fd_dir] in Hc.
-  destruct (k_open st dst false true true fie false) as [st2 [fd2|e]] eqn:O2.
-  2:{ left. inversion Hc; subst. split; auto. eapply k_open_err_same; eauto. }
-  destruct (k_open_dst _ _ _ _ _ O2) as (d & nm & es & kd & Rdst & Pd & Dd & Wd & Rdd & Qd & Gd & Cd).
-  unfold same_file in Hc. cbn [fd_path] in Hc. rewrite Pd in Hc.
-  destruct (cpath_eq_dec (fd_path fs) (d ++ [nm])) as [E|N].
-  - (* the destination is the source itself: refused, and it was not created, so nothing changed *)
-    rewrite E, cpath_eqb_refl in Hc. left. inversion Hc; subst. split; auto.
-    destruct Cd as [(_ & Gn & _)|(_ & _ & _ & X)]; auto. rewrite E in Gs. congruence.
-  - rewrite (cpath_eqb_false _ _ N) in Hc. right.
-    assert (Gp : get (root st) (d ++ [nm]) = None \/ exists c', get (root st) (d ++ [nm]) = Some (NFile c')).
-    { destruct Cd as [(_ & Gn & _)|(_ & _ & X & _)]; auto. }
-    destruct (file_unrelated _ _ _ _ _ _ Gs Gd Gp N) as [U1 U2].
-    assert (Gnew : get (upd (root st) (d ++ [nm]) (Some (NFile []))) (d ++ [nm]) = Some (NFile [])).
-    { rewrite <- (app_nil_r (d ++ [nm])) at 2. erewrite get_upd_here by eauto. reflexivity. }
-    assert (T : k_ftruncate0 st2 fd2 = set_root st (upd (root st) (d ++ [nm]) (Some (NFile [])))).
-    { unfold k_ftruncate0. rewrite Pd. destruct Cd as [(_ & Gn & ->)|(_ & _ & [c' X] & ->)].
-      - cbn [root set_root]. rewrite Gnew. rewrite set_root_twice, upd_upd_same. reflexivity.
-      - rewrite X. reflexivity. }
-    rewrite T in Hc. unfold k_sendfile in Hc. cbn [fd_path fd_pos fd_rd fd_wr fd_dir root set_root] in Hc.
-    rewrite D, Dd, Rd, Wd, Pd, Qd in Hc. cbn [orb negb] in Hc.
-    rewrite Gnew in Hc. rewrite Nat2Z.id in Hc. rewrite overwrite_empty in Hc. rewrite upd_upd_same in Hc.
-    unfold content_at in Hc. cbn [skipn] in Hc.
-    rewrite get_upd_unrelated in Hc by auto. rewrite Gs in Hc. rewrite firstn_all in Hc.
-    rewrite Z.eqb_refl in Hc. inversion Hc; subst. split; auto.
-    rewrite Ps in *.
-    exists ds, ns, c, d, nm, kd, es. repeat split; auto.
-    destruct Cd as [(K & _)|(F & K & _)]; auto.
+  intro Hc. destruct (copy_exact_o _ _ _ _ _ _ _ Hc) as [[B O]|R]; [|right; exact R].
+  left. split; auto. destruct O as [E|(dd & nd & kd & es & c1 & X & _)]; [exact E|]. exfalso. apply X. reflexivity.
 Qed.
 
-Lemma copy_success_exact st src dst fie st' :
-  f_copy st src dst fie = (st', true) ->
+Lemma copy_success_exact_o orc st src dst fie st' :
+  f_copy_o orc st src dst fie = (st', true) ->
   exists ds ns c dd nd kd es,
     resolve st true src = WAt ds ns (Some SFile) /\ get (root st) (ds ++ [ns]) = Some (NFile c) /\
     resolve st (negb fie) dst = WAt dd nd kd /\ (kd = None \/ (fie = false /\ kd = Some SFile)) /\
     get (root st) dd = Some (NDir es) /\ ds ++ [ns] <> dd ++ [nd] /\
     st' = set_root st (upd (root st) (dd ++ [nd]) (Some (NFile c))).
 Proof.
-  intro H. destruct (copy_exact _ _ _ _ _ _ H) as [[X _]|[_ X]]; [discriminate|exact X].
+  intro H. destruct (copy_exact_o _ _ _ _ _ _ _ H) as [[X _]|[_ X]]; [discriminate|exact X].
 Qed.
 
 (* success: the destination holds exactly the source's bytes, the source keeps them, and no other
    place changes kind (the older, weaker reading of copy_exact) *)
-Lemma copy_success_bytes st src dst fie st' :
-  f_copy st src dst fie = (st', true) ->
+Lemma copy_success_bytes orc st src dst fie st' :
+  f_copy_o orc st src dst fie = (st', true) ->
   exists ps pd c, get (root st) ps = Some (NFile c) /\
                   get (root st') pd = Some (NFile c) /\ get (root st') ps = Some (NFile c) /\
                   (forall q, is_prefix pd q = false -> sget (root st') q = sget (root st) q).
 Proof.
-  intro H. destruct (copy_exact _ _ _ _ _ _ H) as [[X _]|(_ & ds & ns & c & d & nm & kd & es & Rs & Gs & Rd & K & Gd & N & ->)];
-    [discriminate|].
+  intro H. destruct (copy_success_exact_o _ _ _ _ _ _ H) as (ds & ns & c & d & nm & kd & es & Rs & Gs & Rd & K & Gd & N & ->).
   assert (Gp : get (root st) (d ++ [nm]) = None \/ exists c', get (root st) (d ++ [nm]) = Some (NFile c')).
   { destruct K as [->|[_ ->]].
     - left. eapply resolve_at_none; eauto.
@@ -156,14 +382,52 @@ Proof.
   - intros q P. apply sget_upd_other; auto. destruct d; discriminate.
 Qed.
 
-(* failure: nothing at all has changed - in particular copy(f, f) leaves f as it is *)
+(* failure, whatever the transfer calls do: every name that exists afterwards existed before, except
+   - when the destination text is a symbolic link to a name that did not exist - that name; and
+   every place other than the destination is untouched *)
+Lemma copy_failure_frame orc st src dst fie st' :
+  f_copy_o orc st src dst fie = (st', false) ->
+  st' = st \/
+  exists dd nd es, resolve st true dst = WAt dd nd (sget (root st) (dd ++ [nd])) /\ get (root st) dd = Some (NDir es) /\
+    (sget (root st) (dd ++ [nd]) = Some SFile \/ (sget (root st) (dd ++ [nd]) = None /\ k_lstat st dst <> None)) /\
+    (forall q, is_prefix (dd ++ [nd]) q = false -> sget (root st') q = sget (root st) q) /\
+    (forall q, is_prefix (dd ++ [nd]) q = false -> is_prefix q (dd ++ [nd]) = false -> get (root st') q = get (root st) q) /\
+    sget (root st') (dd ++ [nd]) = Some SFile.
+Proof.
+  intro H. destruct (copy_exact_o _ _ _ _ _ _ _ H) as [[_ O]|[X _]]; [|discriminate].
+  destruct O as [E|(dd & nd & kd & es & c1 & _ & F & Rd & Gd & K & ->)]; [left; exact E|right].
+  exists dd, nd, es. cbn [root set_root].
+  assert (S : sget (root st) (dd ++ [nd]) = kd).
+  { destruct K as [->|[-> _]].
+    - eapply resolve_at_some; eauto.
+    - unfold sget. erewrite resolve_at_none by eauto. reflexivity. }
+  rewrite S. splits; auto.
+  - intros q P. apply sget_upd_other; auto. destruct dd; discriminate.
+  - intros q P1 P2. apply get_upd_unrelated; auto.
+  - unfold sget. rewrite <- (app_nil_r (dd ++ [nd])) at 2. erewrite get_upd_here by eauto. reflexivity.
+Qed.
+
+(* with transfers that complete: a copy that says false has changed nothing at all - in particular
+   copy(f, f) leaves f as it is *)
 Lemma copy_failure_unchanged st src dst fie st' :
   f_copy st src dst fie = (st', false) -> st' = st.
 Proof.
   intro H. destruct (copy_exact _ _ _ _ _ _ H) as [[_ X]|[X _]]; [exact X|discriminate].
 Qed.
 
-Lemma copy_failure_no_new_names st src dst fie st' :
-  f_copy st src dst fie = (st', false) ->
+(* no new name whenever the destination existed or was created by this call *)
+Lemma copy_failure_no_new_names orc st src dst fie st' :
+  f_copy_o orc st src dst fie = (st', false) -> (k_lstat st dst <> None -> k_stat st dst <> None) ->
   forall q, sget (root st') q <> None -> sget (root st) q <> None.
-Proof. intro H. rewrite (copy_failure_unchanged _ _ _ _ _ H). auto. Qed.
+Proof.
+  intros H NL q Sq. destruct (copy_failure_frame _ _ _ _ _ _ H) as [->|(dd & nd & es & Rd & Gd & K & F1 & _ & _)]; auto.
+  destruct K as [K|[K L]].
+  - destruct (is_prefix (dd ++ [nd]) q) eqn:P; [|rewrite <- F1; auto].
+    apply is_prefix_true in P as [t ->]. destruct t as [|x t]; [rewrite app_nil_r; congruence|].
+    exfalso. apply Sq. unfold sget. rewrite get_app.
+    destruct (get (root st') (dd ++ [nd])) as [n|] eqn:G; auto.
+    destruct (copy_failure_frame _ _ _ _ _ _ H) as [->|(dd' & nd' & es' & Rd' & _ & _ & _ & _ & S')].
+    + apply sget_some_get in K as (n0 & G0 & S0). rewrite G0 in G. inversion G; subst. destruct n; try discriminate. reflexivity.
+    + rewrite Rd in Rd'. inversion Rd'; subst dd' nd'. unfold sget in S'. rewrite G in S'. destruct n; try discriminate. reflexivity.
+  - exfalso. apply (NL L). unfold k_stat. rewrite Rd, K. reflexivity.
+Qed.
